@@ -109,6 +109,8 @@ def run(ctx):
 
     def check_oracle(prog, outs, stream):
         res.evaluations += 1
+        if sum(1 for x in res.failures if x["kf"] is None) >= 20:
+            return  # broken tree: enough failing inputs collected, keep the run time bounded
         st, det = H.oracle(prog, outs)
         res.count("oracle:" + st)
         if st == "invalid":
@@ -170,16 +172,16 @@ def run(ctx):
         check_oracle(prog, outs + [0] * 64, "corpus-" + name)
 
     # -- syntactic stream
-    nS = 40000 if ctx.thorough else 5000
+    nS = 32000 if ctx.thorough else 4000
     progs = []
     for i in range(nS):
         prog = H.Gen(rng, max_depth=4, max_stmts=30).program()
         correspond(prog, "random")
-        if i < (20000 if ctx.thorough else 2500):
+        if i < (16000 if ctx.thorough else 1700):
             progs.append(prog)
         if len(res.samples) < 2 and i % 100 == 3:
             res.samples.append({"program": prog})
-    for _ in range(6000 if ctx.thorough else 1000):
+    for _ in range(6000 if ctx.thorough else 800):
         correspond(H.wild_program(rng), "adversarial")
 
     # -- oracle stream on the same programs, scripted outcomes; the Lean HostSem against the direct
@@ -204,7 +206,7 @@ def run(ctx):
             cross(H.cross_exec, "protoexec-vs-executor", prog, outs)
 
     # -- small programs: every flush placement, both streams
-    nSmall = 500 if ctx.thorough else 70
+    nSmall = 500 if ctx.thorough else 45
     for _ in range(nSmall):
         g = H.Gen(rng, max_depth=3, max_stmts=12)
         core = [t for t in g.program(n_top=rng.choice([2, 3, 4]), flush_p=0.0) if t["k"] != "flush"][:6]
